@@ -103,6 +103,13 @@ def _alias(groups, table, seed):
     for g in groups:
         if g and g[0] in table and r.random() < 0.5:
             g = [table[g[0]]] + g[1:]
+        if len(g) >= 2 and g[0] not in ('-f', '-filename') and \
+                r.random() < 0.15:
+            # int() also reads '+2' and '02'
+            g = [g[0]] + [('+' + x if r.random() < 0.5 else '0' + x)
+                          if x.isdigit() else x for x in g[1:]]
+        if len(g) == 2 and len(g[0]) > 2 and r.random() < 0.3:
+            g = [g[0] + '=' + g[1]]        # argparse's flag=value spelling
         out.append(g)
     return out
 
@@ -330,7 +337,19 @@ def solver_session(tr, path, na, twopl, opts, ops, backend_cfg, clock,
             try:
                 if name == 'solve':
                     be.solve_index += 1
-                    r = s.solve(**kw)
+                    call_kw = dict(kw)
+                    tl_type = call_kw.pop('tl_type', None)
+                    positional = call_kw.pop('positional', False)
+                    if tl_type and call_kw.get('timeLimit') is not None:
+                        import numpy
+                        call_kw['timeLimit'] = getattr(numpy, tl_type)(
+                            call_kw['timeLimit'])
+                    if positional:
+                        # the documented order: msg, timeLimit, threads, write
+                        r = s.solve(call_kw.get('msg', False),
+                                    call_kw.get('timeLimit'))
+                    else:
+                        r = s.solve(**call_kw)
                     tr.t_solve_return.append(clock.seconds())
                     text = None
                 else:
